@@ -5,6 +5,7 @@ import (
 	"fmt"
 	"sort"
 	"strings"
+	"sync"
 
 	"diagonal.works/b6"
 	"diagonal.works/b6/ingest"
@@ -80,7 +81,7 @@ func init() {
 		Quick: 300, Thorough: 20000,
 		Required: []string{"ops", "doc_tag_edits", "doc_features", "exported_remove", "added_path", "added_area", "added_relation", "added_collection",
 			"value_int", "value_float", "value_point", "value_id", "value_list", "value_null", "value_empty", "value_space", "value_multiline", "value_yaml",
-			"plain_edit_on_base", "searchable_edit_on_base", "edit_on_overlay_feature", "dumps_compared"},
+			"plain_edit_on_base", "searchable_edit_on_base", "edit_on_overlay_feature", "dumps_compared", "plain_edit_move_edit_again"},
 		Run: c18Run,
 	})
 }
@@ -93,6 +94,8 @@ func c18Run(c *core.Ctx) {
 	}
 	g := wm.NewGen(r.Fork(), o)
 	specs := g.World()
+	movable := g.AddMovable() // NextOp then also moves points under a path and under an area
+	specs = append(specs, movable...)
 	model := wm.ModelOf(specs)
 	inBase := map[b6.FeatureID]bool{}
 	for _, s := range specs {
@@ -139,8 +142,62 @@ func c18Run(c *core.Ctx) {
 		}
 		return ps
 	}
+	// directed sequence (one case in four): a plain tag edit on a base feature, then a move of a point under it
+	// (which copies the feature into the overlay), then another edit of the same key
+	directed := func() bool {
+		dependants := []*wm.Spec{movable[3], movable[len(movable)-2], movable[len(movable)-1]} // open path, ring path, area
+		f := core.Pick(r, dependants)
+		key := core.Pick(r, []string{"name", "note", "surface"})
+		first := wm.Op{Kind: "addtag", ID: f.ID, Tag: b6.Tag{Key: key, Value: b6.NewStringExpression("first")}}
+		if r.Chance(0.3) {
+			if err := wm.ApplyModel(model.Clone(), wm.Op{Kind: "addtag", ID: f.ID, Tag: b6.Tag{Key: key, Value: b6.NewStringExpression("x")}}); err == nil && len(model.F[f.ID].Tags) > 0 {
+				first = wm.Op{Kind: "removetag", ID: f.ID, Key: core.Pick(r, model.F[f.ID].Tags).Key}
+				key = first.Key
+			}
+		}
+		if !apply(first) {
+			return false
+		}
+		moved := false
+		for try := 0; try < 20 && !moved; try++ {
+			op, ok := g.MoveOp(model)
+			if !ok {
+				break
+			}
+			// the moved point must lie under the chosen feature
+			under := false
+			for _, ref := range model.F[movable[3].ID].Refs() {
+				if f.ID == movable[3].ID && ref == op.Spec.ID {
+					under = true
+				}
+			}
+			for _, ref := range model.F[movable[len(movable)-2].ID].Refs() {
+				if f.ID != movable[3].ID && ref == op.Spec.ID {
+					under = true
+				}
+			}
+			if !under {
+				continue
+			}
+			if !apply(op) {
+				return false
+			}
+			moved = true
+		}
+		if moved {
+			c.Count("plain_edit_move_edit_again")
+		}
+		return apply(wm.Op{Kind: "addtag", ID: f.ID, Tag: b6.Tag{Key: key, Value: b6.NewStringExpression("second")}})
+	}
 	n := r.Range(1, 30)
+	at := -1
+	if c.Index%4 == 3 {
+		at = r.Intn(n)
+	}
 	for i := 0; i < n; i++ {
+		if i == at && !directed() {
+			return
+		}
 		switch k := r.Intn(20); {
 		case k < 8: // a tag with a palette value
 			ids := model.IDs()
@@ -418,6 +475,23 @@ func c18Run(c *core.Ctx) {
 			for _, t := range fresh.Tokens() {
 				tb[t] = true
 			}
+			// the tokens the current features of a world give rise to (independent of the state of its index)
+			expected := func(w b6.World) map[string]bool {
+				out := map[string]bool{}
+				var mu sync.Mutex
+				w.EachFeature(func(f b6.Feature, _ int) error {
+					mu.Lock()
+					defer mu.Unlock()
+					core.Protect(func() {
+						for _, t := range ingest.TokensForFeature(f) {
+							out[t] = true
+						}
+					})
+					return nil
+				}, &b6.EachFeatureOptions{Goroutines: 1})
+				return out
+			}
+			var expA, expB map[string]bool
 			check := func(w b6.World, here, there map[string]bool) {
 				for t := range here {
 					if there[t] {
@@ -427,6 +501,19 @@ func c18Run(c *core.Ctx) {
 					alive := true
 					switch {
 					case strings.HasPrefix(t, "a2:") || strings.HasPrefix(t, "s2:"):
+						// a cell token is alive if a current feature is indexed under it; after a point moved, the
+						// cells of the old position stay in the token list with nothing behind them
+						if w == edited {
+							if expA == nil {
+								expA = expected(edited)
+							}
+							alive = expA[t]
+						} else {
+							if expB == nil {
+								expB = expected(fresh)
+							}
+							alive = expB[t]
+						}
 					case len(kv) == 2:
 						alive = len(obs.FindIDs(w, b6.Tagged{Key: "#" + kv[0], Value: b6.NewStringExpression(kv[1])})) > 0
 					default:
